@@ -272,6 +272,18 @@ class ForLoop(Mapping[str, object]):
     def __iter__(self) -> Iterator[Any]:
         return self
 
+    # `__iter__` steps through the loop, it does not iterate the drop's keys.
+    # The mapping views must not use it.
+
+    def keys(self) -> Any:  # noqa: D102
+        return sorted(self._keys)
+
+    def values(self) -> Any:  # noqa: D102
+        return [self[key] for key in self.keys()]
+
+    def items(self) -> Any:  # noqa: D102
+        return [(key, self[key]) for key in self.keys()]
+
     def __str__(self) -> str:
         return "ForLoop"
 
